@@ -181,7 +181,19 @@ def _result_relations(f, call_block):
         tt = f.term(b)
         if tt["t"] == "call":
             yield ("call", strip_generics(callee_name(tt)))
-    return path_summaries(f, edge_fact, block_fact, start=t["to"])
+    out = []
+    for facts, rb, path in path_summaries(f, edge_fact, block_fact, start=t["to"]):
+        # an if/else chain establishes a relation by exclusion (`!= 0` and `>= 0`  =>  `> 0`)
+        rels = {x[1] for x in facts if x[0] == "rel"}
+        if not rels:
+            poss = {"lt", "eq", "gt"}
+            for x in facts:
+                if x[0] == "relset":
+                    poss &= set(x[1])
+            if len(poss) == 1:
+                facts = frozenset(facts) | {("rel", next(iter(poss)))}
+        out.append((facts, rb, path))
+    return out
 
 
 def _const_of(f, tr, op):
